@@ -619,13 +619,16 @@ def rule_r5(prog, res) -> None:
     # two lengths were found different (and none when they were found equal)
     cla2 = prog.func("common_len_assert")
     res.touch(cla2)
-    ccfg = cfg_of(cla2.node)
+    from .common import expand_locals as _xl9
+
     verdicts = []
-    for nd in ccfg.nodes:
+    for g_ in [cla2] + [f_ for f_ in cla2.module.all_funcs if f_.parent is cla2]:
+      ccfg = cfg_of(g_.node)
+      for nd in ccfg.nodes:
         if nd.kind == "stmt" and isinstance(nd.ast, ast.Raise):
             for t, pol in ccfg.guards(nd):
                 for y in ast.walk(t):
-                    if isinstance(y, ast.Compare) and len(y.ops) == 1 and isinstance(y.ops[0], (ast.Eq, ast.NotEq)) and "len(" in unparse(y):
+                    if isinstance(y, ast.Compare) and len(y.ops) == 1 and isinstance(y.ops[0], (ast.Eq, ast.NotEq)) and "len(" in unparse(_xl9(g_.node, y, set(g_.param_names()), depth=3)):
                         neg = sum(1 for z in ast.walk(t) if isinstance(z, ast.UnaryOp) and isinstance(z.op, ast.Not) and any(w is y for w in ast.walk(z)))
                         verdicts.append((isinstance(y.ops[0], ast.NotEq) == pol) if neg % 2 == 0 else (isinstance(y.ops[0], ast.NotEq) != pol))
     if verdicts and all(verdicts):
